@@ -30,6 +30,19 @@ let sweep pre suf (f : z list -> string) : string =
 
 let twice v = v ^ " " ^ v
 
+(* Inputs beyond this many bytes: the list-indexing model is quadratic (and worse) in the input length, so the model
+   column is the closed form that a theorem of Properties_C18.v proves equal to the model function for EVERY input:
+     is_valid bs   = Ok (layout_valid (map w8 bs))     utf8_is_valid_never_fails
+     from_hex bs   = Ok (upper_hex bs)                  hex_is_upper_hex (bytes parsed from hex are 0..255)
+     from_base64 s = Ok bs  when rfc4648_preimage s = Some bs     base64_decodes_every_rfc4648_text
+   (a long base64 string that is no RFC 4648 encoding still runs through the model function itself). *)
+let long_input = 1536
+let is_long l = List.compare_length_with l long_input > 0
+let model_is_valid bs = if is_long bs then layout_valid bs else get (is_valid bs)
+let model_from_hex bs = if is_long bs then upper_hex bs else get (from_hex bs)
+let model_from_base64 s =
+  if is_long s then (match rfc4648_preimage s with Some bs -> bs | None -> get (from_base64 s)) else get (from_base64 s)
+
 let model_op toks : string = match toks with
   | ["u8sw"; p; s] ->
       sweep p s (fun b -> dec_of_z (get (from_string b))) ^ " " ^ sweep p s (fun b -> bit (get (is_valid b)))
@@ -40,13 +53,22 @@ let model_op toks : string = match toks with
   (* the readers are printed twice: pointer overload, then the String overload (Unicode.hpp: fromString(str, str.length()),
      isValid(str, str.length()) - the same model function on the same bytes) *)
   | ["u8dec"; h] -> let v = dec_of_z (get (from_string (bytes_of_hex h))) in v ^ " " ^ v
-  | ["u8valid"; h] -> let v = bit (get (is_valid (bytes_of_hex h))) in v ^ " " ^ v
+  | ["u8valid"; h] -> let v = bit (model_is_valid (bytes_of_hex h)) in v ^ " " ^ v
+  (* the String overloads on a String attached to the window of a block window ++ tail.  As repaired (fixes/C18/02) they
+     hand the window to the pointer overloads: the tail does not enter *)
+  | ["u8deca"; h; _] -> dec_of_z (get (from_string (bytes_of_hex h)))
+  | ["u8valida"; h; _] -> bit (model_is_valid (bytes_of_hex h))
+  (* the member conversions on an attached String: the C-string view reads the byte behind the window (`! oob` without one) *)
+  | ["tointa"; h; t] -> dec_of_z (get (to_int_att (bytes_of_hex h) (bytes_of_hex t)))
+  | ["touinta"; h; t] -> dec_of_z (get (to_uint_att (bytes_of_hex h) (bytes_of_hex t)))
+  | ["toint64a"; h; t] -> dec_of_z (get (to_int64_att (bytes_of_hex h) (bytes_of_hex t)))
+  | ["touint64a"; h; t] -> dec_of_z (get (to_uint64_att (bytes_of_hex h) (bytes_of_hex t)))
   | ["u8rt"; cp] ->
       let s = to_string (z_of_dec cp) in
       let d = dec_of_z (get (from_string s)) and v = bit (get (is_valid s)) in
       Printf.sprintf "%s %s %s %s %s" (hexz s) d v d v
-  | ["hex"; h] -> hexz (get (from_hex (bytes_of_hex h)))
-  | ["b64"; h] -> hexz (get (from_base64 (bytes_of_hex h)))
+  | ["hex"; h] -> hexz (model_from_hex (bytes_of_hex h))
+  | ["b64"; h] -> hexz (model_from_base64 (bytes_of_hex h))
   | ["b64raw"; h] -> hexz (get (from_base64_unrepaired (bytes_of_hex h)))
   | ["fromint"; v] -> hexz (from_int (z_of_dec v))
   | ["fromuint"; v] -> hexz (from_uint (z_of_dec v))
@@ -84,6 +106,12 @@ let spec_op toks : string = match toks with
   | ["u8valid"; h] ->
       let bs = bytes_of_hex h in
       let v = if utf8_text bs then "1" else if layout_valid bs then "?" else "0" in v ^ " " ^ v
+  | ["u8deca"; h; _] -> (match utf8_first (bytes_of_hex h) with Some cp -> dec_of_z cp | None -> "?")
+  | ["u8valida"; h; _] -> let bs = bytes_of_hex h in if utf8_text bs then "1" else if layout_valid bs then "?" else "0"
+  | ["tointa"; h; _] -> valued int_min int_max (bytes_of_hex h)
+  | ["touinta"; h; _] -> valued Z0 uint_max (bytes_of_hex h)
+  | ["toint64a"; h; _] -> valued int64_min int64_max (bytes_of_hex h)
+  | ["touint64a"; h; _] -> valued Z0 uint64_max (bytes_of_hex h)
   | ["u8rt"; cp] ->
       let c = z_of_dec cp in
       if is_cp c then Printf.sprintf "%s %s 1 %s 1" (hexz (rfc3629 c)) (dec_of_z c) (dec_of_z c) else "? ? ? ? ?"
